@@ -3,7 +3,8 @@
    Proofs/Alloc.v.  The model (Model/Alloc.v) calls the generated kernels of Generated/GenAlloc.v,
    so these theorems are re-checked against the current text of align / slices_overlap. *)
 From Coq Require Import ZArith List Bool Permutation.
-Require Import Rig.Generated.GenAlloc Rig.Model.Base Rig.Model.Alloc Rig.Spec.Alloc Rig.Proofs.Alloc.
+Require Import Rig.Generated.GenAlloc Rig.Generated.GenWrapper Rig.Model.Base Rig.Model.Alloc Rig.Model.AllocWrapper
+        Rig.Spec.Alloc Rig.Proofs.Alloc Rig.Proofs.AllocWrapper.
 Import ListNotations.
 Open Scope Z_scope.
 
@@ -34,6 +35,41 @@ Theorem C05_allocate_complete :
     feasible_ends vres m cs pl ->
     exists alloc, allocate vres m cs pl = Ok alloc.
 Proof. exact allocate_complete. Qed.
+
+(* The allocator reached through wrapper(): the constraint list handed over is the caller's followed by the monitor
+   reservation and the SDRAM alignment (shape and constants regenerated from wrapper.py: Generated/GenWrapper.v).
+   Everything above holds for that list ... *)
+Theorem C05_wrapper_sound :
+  forall vres m user rm al rc rs pl alloc,
+    aligns_positive user -> requests_nonneg vres -> NoDup (map fst pl) ->
+    wrapper_allocate vres m user rm al rc rs pl = Ok alloc ->
+    allocation_sound vres m (wrapper_constraints user rm al rc rs) pl alloc.
+Proof. exact wrapper_allocate_sound. Qed.
+
+(* ... so with reserve_monitor no vertex's core range meets the reserved slice (core 0) ... *)
+Theorem C05_wrapper_monitor_core_free :
+  forall vres m user al rc rs pl alloc v ra sl,
+    aligns_positive user -> requests_nonneg vres -> NoDup (map fst pl) ->
+    wrapper_allocate vres m user true al rc rs pl = Ok alloc ->
+    In (v, ra) alloc -> In (rc, sl) ra ->
+    slices_overlap sl wrapper_monitor_slice = false.
+Proof. exact wrapper_monitor_free. Qed.
+
+(* ... and with align_sdram every SDRAM range starts on the wrapper's alignment, whatever alignments of this or
+   other resources the caller supplied (the wrapper's constraint comes last, and the last one wins). *)
+Theorem C05_wrapper_sdram_aligned :
+  forall vres m user rm rc rs pl alloc v ra sl,
+    aligns_positive user -> requests_nonneg vres -> NoDup (map fst pl) ->
+    wrapper_allocate vres m user rm true rc rs pl = Ok alloc ->
+    In (v, ra) alloc -> In (rs, sl) ra ->
+    fst sl mod wrapper_sdram_alignment = 0.
+Proof. exact wrapper_sdram_aligned. Qed.
+
+Example C05_wrapper_hypotheses_satisfiable :
+  wrapper_allocate exw_vres exw_machine exw_user true true 0 1 exw_pl
+  = Ok [(1, [(0, (1, 2)); (1, (4, 9)); (2, (0, 3))]); (2, [(0, (2, 4)); (1, (12, 18)); (2, (8, 11))])]
+  /\ aligns_positive exw_user /\ requests_nonneg exw_vres /\ NoDup (map fst exw_pl).
+Proof. exact exw_instance. Qed.
 
 (* Non-vacuity: a chip with interleaved reservations and alignment 4 meets the hypotheses and the
    allocator succeeds on it; a prefix+suffix reservation instance meets the completeness guard. *)
